@@ -5,7 +5,7 @@ pub use nom;
 use nom::branch::alt;
 use nom::bytes::complete::tag;
 use nom::character::complete::{alpha1, digit1, hex_digit1, multispace0, multispace1};
-use nom::combinator::{map, opt, recognize};
+use nom::combinator::{map, opt, recognize, verify};
 use nom::error::{ErrorKind, ParseError};
 use nom::multi::{many0, many1};
 use nom::sequence::{delimited, preceded, terminated, tuple};
@@ -207,7 +207,7 @@ pub fn pi(input: &str) -> IResult<&str, model::PI<'_>> {
 ///
 /// [\[17\] PITarget](https://www.w3.org/TR/2008/REC-xml-20081126/#NT-PITarget)
 fn pi_target(input: &str) -> IResult<&str, &str> {
-    helper::take_except(name, "xml")(input)
+    verify(name, |v: &str| !v.eq_ignore_ascii_case("xml"))(input)
 }
 
 /// CDStart CData CDEnd
